@@ -33,6 +33,7 @@ pub mod verif_hooks {
     pub use crate::hover::LineChar;
     pub use crate::hover::verif_get_index_of_line_char as get_index_of_line_char;
     pub use crate::semantic_tokens::delta_line_delta_start;
+    pub use crate::semantic_tokens::verif_token_lines;
 }
 
 pub async fn start_language_server<TCompilationProfile: CompilationProfile>(
